@@ -81,7 +81,8 @@ def probe_array(n_modes=1):
     return np.stack(modes, 0)
 
 
-def make_dataset(seed, scan=(6, 6), step=2, bilinear=False, descan=(0.0, 0.0), com_fit="constant"):
+def make_dataset(seed, scan=(6, 6), step=2, bilinear=False, descan=(0.0, 0.0), com_fit="constant",
+                 det_mask=None):
     """-> preprocessed PtychographyDatasetRaster.  descan: constant sub-pixel shift of every pattern on
     the detector (then the fitted origin has a fractional part and the interpolation used to centre
     the patterns - Fourier or bilinear - matters)"""
@@ -114,7 +115,16 @@ def make_dataset(seed, scan=(6, 6), step=2, bilinear=False, descan=(0.0, 0.0), c
     d4 = m["Dataset4dstem"].from_array(
         array=np.fft.fftshift(inten * 100, axes=(-2, -1)).reshape((sx, sy, N, N)).astype(np.float32),
         sampling=(step * s, step * s, rs, rs), units=("A", "A", "A^-1", "A^-1"))
-    pd = m["Raster"].from_dataset4dstem(d4, verbose=0)
+    mkw = {}
+    if det_mask:
+        # a user-supplied detector mask: beam stop in the centre of the detector, or scattered dead pixels
+        mask = np.ones((N, N), np.float32)
+        if det_mask == "beamstop":
+            mask[N // 2 - 2: N // 2 + 2, N // 2 - 2: N // 2 + 2] = 0
+        else:
+            mask[1::5, 2::3] = 0
+        mkw["detector_mask"] = mask
+    pd = m["Raster"].from_dataset4dstem(d4, verbose=0, **mkw)
     pd.preprocess(com_fit_function=com_fit, plot_rotation=False, plot_com=False,
                   probe_energy=ENERGY, force_com_rotation=0, force_com_transpose=False,
                   bilinear=bool(bilinear))
